@@ -9,7 +9,7 @@ prop("C07", pkg="c07", vlimit_gb=16,
           "Non-trivial = prefix that ends strictly inside a field, mutation of a length prefix, insertion not at offset 0, non-empty random input; "
           "distinct = FNV-64 of (type descriptor, kind, input bytes).",
      quick=dict(shards=16, scale=1, timeout=900),
-     thorough=dict(shards=16, scale=14, timeout=3000),
+     thorough=dict(shards=16, scale=18, timeout=3000),
      technique="property-based testing (rapid) of types/values x enumeration of cut points, structured wire mutations and unknown-field insertions; protowire as the reference "
                "field walker; runtime.MemStats.TotalAlloc for the allocation bound; journal-supervised shards under a 16 GiB address-space limit",
      level_text="Exploration: on every derived input Unmarshal, Scan/Parse and the RawValue accessors returned without panic or fatal error; no input of <= 4 KiB made the decoders "
